@@ -368,8 +368,17 @@ func cmdCheck(args []string) {
 	discharged, total, covers, coverUnknown := 0, 0, 0, 0
 	knownHit := map[string]bool{}
 	var samples []map[string]any
+	type slowOb struct {
+		name string
+		secs float64
+		by   string
+	}
+	var slow []slowOb
 	for _, o := range obs {
 		solverSecs += o.Secs
+		if o.Expect != "sat" && o.Status == "proved" && o.Secs >= 8 {
+			slow = append(slow, slowOb{o.Name, o.Secs, o.Solver})
+		}
 		if o.Expect == "sat" {
 			covers++
 			switch o.Status {
@@ -560,6 +569,15 @@ func cmdCheck(args []string) {
 		inl = append(inl, k)
 	}
 	sort.Strings(inl)
+	sort.Slice(slow, func(i, j int) bool { return slow[i].secs > slow[j].secs })
+	var slowList []map[string]any
+	for i, so := range slow {
+		if i >= 12 {
+			break
+		}
+		slowList = append(slowList, map[string]any{"obligation": so.name, "solver_seconds_all_attempts": round3(so.secs), "decided_by": so.by})
+		fmt.Printf("SLOW %s: %.1fs (%s)\n", so.name, so.secs, so.by)
+	}
 	cov := map[string]any{
 		"obligations":              total,
 		"discharged":               discharged,
@@ -571,6 +589,7 @@ func cmdCheck(args []string) {
 		"inlined_callees":          inl,
 		"discharged_by_backend":    byBackend,
 		"solver_seconds":           round3(solverSecs),
+		"slow_obligations":         slowList,
 		"range_obligations":        nRange,
 		"wrapped_ops":              wrappedOps,
 		"vacuity_covers":           covers,
